@@ -408,6 +408,14 @@ def render_keys(ks, kind, none_class=-1):
     return out
 
 
+def among(values, x):
+    """The concrete member of `values` equal to the symbolic x (explicit branching)."""
+    for v in values:
+        if x == v:
+            return v
+    raise ValueError('value outside the stated domain')
+
+
 def take(lst, n):
     """lst[:n] for a symbolic n, by explicit branching (the result is a plain concrete list)."""
     for k in range(len(lst) + 1):
